@@ -18,6 +18,9 @@ type ParallelWorkers struct {
 	count int               // Number of workers in the pool
 	queue chan *ParallelJob // A channel for passing jobs
 
+	// queueLock ensures the queue is not closed while a job is being added
+	queueLock sync.RWMutex
+
 	// tracking state
 	lock              sync.RWMutex
 	shouldShutdown    bool
@@ -132,7 +135,9 @@ func (w *ParallelWorkers) Stop() {
 	w.lock.Lock()
 	w.shouldShutdown = true
 	w.lock.Unlock()
+	w.queueLock.Lock()
 	close(w.queue)
+	w.queueLock.Unlock()
 
 	// Wait for scheduler to return
 	<-w.ackShutdown
@@ -188,6 +193,9 @@ func (j *ParallelJob) Workers() int {
 // If you don't want to block, make sure taskBacklog is greater than all
 // possible tasks you'll add.
 func (w *ParallelWorkers) NewJob(taskBacklog int) (Job, error) {
+	w.queueLock.RLock()
+	defer w.queueLock.RUnlock()
+
 	w.lock.Lock()
 	shouldShutdown := w.shouldShutdown
 	w.lock.Unlock()
